@@ -156,7 +156,7 @@ package immutable
 
 // C01: the reported violations are exactly those the property demands, in every declaration of every analysed file.
 //@ func CheckImmutable
-//@   props C01 C12 C14 C10
+//@   props C01 C12 C14 C10 C13
 //@   assigns nothing
 //@   loop 1 frame
 //@   loop 2 frame
